@@ -218,16 +218,9 @@ class Doc:
                 return kind(pc)
         return "none"
 
-    def misparented_set_member(self, nc):
-        """nc.node is a member of a set S and nc.parent is the holder of S (or None when S is the root)."""
-        for c, ref, ch in self.positions:
-            if kind(c) == "set" and ch is nc.node and _same_ref(ref, nc.parentref) and c is not nc.parent:
-                if nc.parent is None:
-                    if c is self.root:
-                        return True
-                elif any(pc is nc.parent and pch is c for pc, _, pch in self.positions):
-                    return True
-        return False
+    def homes(self, nc):
+        """containers other than nc.parent that hold nc.node (by identity) under a reference equal to nc.parentref"""
+        return [c for c, ref, ch in self.positions if ch is nc.node and c is not nc.parent and _same_ref(ref, nc.parentref)]
 
     def is_merge_source(self, nc):
         m = getattr(nc.parent, "merge", None)
@@ -268,8 +261,7 @@ def is_virtual(nc, doc, upstream_virtual):
 
 
 def check_parent_ref(nc, doc):
-    """-> None or (detail, observed, container kind)"""
-    CommentedSet, _ = _types()
+    """-> None or (detail, observed, kind of the container the node really lives in / is claimed to live in)"""
     root = doc.root
     if nc.node is root and kind(root) in ("map", "seq", "set"):
         if nc.parent is not None:
@@ -277,33 +269,42 @@ def check_parent_ref(nc, doc):
         return None
     if nc.parent is None and nc.node is root:      # scalar document: its only node is the root
         return None
-    if doc.misparented_set_member(nc):
-        return ("set-member-parent-is-not-the-set",
-                "node=%r is a member of a set, parent=%s parentref=%r" % (nc.node, _short(nc.parent), nc.parentref), "set")
+    bad = _direct_parent_ref(nc, doc)
+    if bad is None:
+        return None
+    homes = doc.homes(nc)
+    if homes:
+        # the node sits under that very reference in another container: the parent handed out is the wrong object
+        return ("parent-is-not-the-container", "%s; the node is at [%r] of %s" % (bad[1], nc.parentref, _short(homes[0])),
+                kind(homes[0]))
+    return bad[0], bad[1], kind(nc.parent)
+
+
+def _direct_parent_ref(nc, doc):
+    CommentedSet, _ = _types()
     if nc.parent is None:
-        return "no-parent", "parent=None parentref=%r node=%s" % (nc.parentref, _short(nc.node)), "none"
+        return "no-parent", "parent=None parentref=%r node=%s" % (nc.parentref, _short(nc.node))
     p = nc.parent
     if isinstance(p, (CommentedSet, set)):
         try:
             ok = nc.node in p
         except TypeError as e:
-            return "TypeError", repr(e), "set"
-        return None if ok else ("not-a-member", "node=%s parent(set)=%s" % (_short(nc.node), _short(p)), "set")
+            return "TypeError", repr(e)
+        return None if ok else ("not-a-member", "node=%s parent(set)=%s" % (_short(nc.node), _short(p)))
     if not isinstance(p, (dict, list)):
-        return "parent-not-a-container", "parent=%r" % (p,), kind(p)
+        return "parent-not-a-container", "parent=%r" % (p,)
     try:
         got = p[nc.parentref]
     except (KeyError, IndexError, TypeError) as e:
         if doc.is_merge_source(nc):
-            return ("merge-key-source-has-no-ref", "parent=%s parentref=%r -> %s" % (_short(p), nc.parentref, type(e).__name__),
-                    kind(p))
-        return type(e).__name__, "parent=%s parentref=%r -> %r" % (_short(p), nc.parentref, e), kind(p)
+            return "merge-key-source-has-no-ref", "parent=%s parentref=%r -> %s" % (_short(p), nc.parentref, type(e).__name__)
+        return type(e).__name__, "parent=%s parentref=%r -> %r" % (_short(p), nc.parentref, e)
     if got is not nc.node:
-        return "other-node", "parent[parentref]=%s node=%s" % (_short(got), _short(nc.node)), kind(p)
+        return "other-node", "parent[parentref]=%s node=%s" % (_short(got), _short(nc.node))
     return None
 
 
-def check_ancestry(nc, doc, set_misparented=False):
+def check_ancestry(nc, doc, home=None):
     """-> None or (detail, observed, container kind)"""
     CommentedSet, _ = _types()
     root = doc.root
@@ -313,12 +314,16 @@ def check_ancestry(nc, doc, set_misparented=False):
             return "nonempty-for-root", _anc_repr(anc), "none"
         return None
     tparent, tref = nc.parent, nc.parentref
-    if set_misparented and anc and kind(anc[-1][0]) == "set":
-        tparent, tref = anc[-1]          # the walk has to end with (the set, the member)
-    elif set_misparented:
-        return "set-member-chain-stops-above-the-set", _anc_repr(anc), "set"
+    hk = kind(home) if home is not None else kind(nc.parent)
+    if home is not None:
+        tparent = home                    # the walk has to end at the container the node really lives in
+        try:
+            if (not anc and home is root) or (anc and anc[0][0] is root and anc[-1][0][anc[-1][1]] is home):
+                return "stops-above-the-container", "%s, node lives in %s" % (_anc_repr(anc), _short(home)), hk
+        except (KeyError, IndexError, TypeError):
+            pass
     if not anc:
-        return "truncated", "ancestry=[] parent=%s parentref=%r" % (_short(nc.parent), nc.parentref), kind(nc.parent)
+        return "truncated", "ancestry=[] parent=%s parentref=%r" % (_short(nc.parent), nc.parentref), hk
     if anc[0][0] is not root:
         return "truncated", "does not start at the root: " + _anc_repr(anc), doc.holder_kind(anc[0][0])
     for i in range(len(anc) - 1):
@@ -336,8 +341,7 @@ def check_ancestry(nc, doc, set_misparented=False):
         if lref is nc.node or _same_ref(lref, nc.parentref):
             return None      # no key/index exists for a merged-in map; reported once, under parent-ref
     if la is not tparent or not _same_ref(lref, tref):
-        return ("last-entry-not-parent", "%s vs parent=%s parentref=%r" % (_anc_repr(anc), _short(nc.parent), nc.parentref),
-                kind(nc.parent))
+        return ("last-entry-not-parent", "%s vs parent=%s parentref=%r" % (_anc_repr(anc), _short(tparent), nc.parentref), hk)
     return None
 
 
@@ -417,6 +421,22 @@ def first_key_begins_with_slash(nc, doc):
     return kind(doc.root) == "map" and any(isinstance(k, str) and k.startswith("/") for k in doc.root)
 
 
+def parses_back(nc):
+    """Do the segments of the reported path, parsed again, name the references of the ancestry?  (True when not comparable)"""
+    from yamlpath import YAMLPath
+    from yamlpath.enums import PathSegmentTypes
+    try:
+        segs = list(YAMLPath(str(nc.path)).escaped)
+    except Exception:
+        return False
+    if any(t not in (PathSegmentTypes.KEY, PathSegmentTypes.INDEX) for t, _ in segs):
+        return True
+    refs = [r for _, r in nc.ancestry]
+    if len(segs) != len(refs):
+        return False
+    return all(str(a) == str(r) for (_, a), r in zip(segs, refs))
+
+
 def check_requery(nc, requery, position_trusted):
     """-> list of (clause, detail, observed)"""
     fails = []
@@ -490,14 +510,14 @@ def check_case(doc, path_text, log=None, requery=None):
         info["exc"] = "parse:" + type(e).__name__
         return failures, info
 
-    def fail(nc, clause, detail, observed, expected, container):
+    def fail(nc, clause, detail, observed, expected, container, any_segment=False):
         if clause == "requery-miss" and first_key_begins_with_slash(nc, doc):
             key = "C02/requery-miss:first-key-begins-with-slash/*/*"
         elif upstream_virtual:
             # one root cause: a later segment took a slice/collector result for a document list
             key = "C02/%s/after-virtual" % clause
         else:
-            key = "C02/%s%s/%s/%s" % (clause, ":" + detail if detail else "", seg_kind(nc), container)
+            key = "C02/%s%s/%s/%s" % (clause, ":" + detail if detail else "", "*" if any_segment else seg_kind(nc), container)
         if key in seen_keys:
             return
         seen_keys.add(key)
@@ -517,15 +537,20 @@ def check_case(doc, path_text, log=None, requery=None):
             pr = check_parent_ref(nc, doc)
             if pr:
                 fail(nc, "parent-ref", pr[0], pr[1], "parent[parentref] is node (set: node in parent); root: parent None", pr[2])
-            setmis = bool(pr) and pr[0] == "set-member-parent-is-not-the-set"
-            an = check_ancestry(nc, doc, setmis)
+            home = doc.homes(nc)[0] if pr and pr[0] == "parent-is-not-the-container" else None
+            an = check_ancestry(nc, doc, home)
             if an:
                 fail(nc, "ancestry", an[0], an[1],
                      "chain root=a0..an=parent, a_i[ref_i] is a_i+1, last entry == (parent, parentref)", an[2])
-            home = "set" if setmis else kind(nc.parent)
+            hk = kind(home) if home is not None else kind(nc.parent)
             for clause, detail, obs in check_requery(nc, requery, position_trusted=pr is None):
-                fail(nc, clause, detail, obs,
-                     "exactly this node at this position, once (every result that node for &anchor paths)", home)
+                if clause == "requery-miss" and an is None and not parses_back(nc):
+                    # the chain is right, the text is not: rendering/escaping, whatever segment produced the result
+                    fail(nc, clause, "path-text-does-not-parse-back-to-the-ancestry-refs", obs,
+                         "the reported path's segments are the ancestry's references", hk, any_segment=True)
+                else:
+                    fail(nc, clause, detail, obs,
+                         "exactly this node at this position, once (every result that node for &anchor paths)", hk)
     except YAMLPathException as e:
         info["exc"] = type(e).__name__
     except Exception as e:                      # C15's business, not a coordinate failure
